@@ -287,7 +287,7 @@ func main() {
 	finish := func() int {
 		rule := "every signature of Sig(D,2) (outer atoms c C w W i I l L f d b s m o, plus v alone; inner atoms i s b m C; map keys c C w W i I l L b s / i s C; tuples and structs of width <= 2 with at most one composite member) " +
 			"x every datum of Val(sig) x 3 entry points (reflect-encode; sigreader and reflect-decode each under 2 deliveries: sentinel follows/unfragmented, separate EOF/1 byte per read - depth-3 signatures under the first delivery only); " +
-			"plus the boundary family (families boundary/<entry point>): lists [i] [C] [s] and maps {ii} {Iw} {wb} {si} taken alone, and a large map or list as struct member (c{Iw}W)<S,a,b,c>, list element [{ii}], map value {i{ii}} and tuple member ([i]), " +
+			"plus the boundary family (families boundary/<entry point>): lists [i] [C] [s] [m] and maps {ii} {Iw} {wb} {si} taken alone, and a large map or list as struct member (c{Iw}W)<S,a,b,c>, list element [{ii}], map value {i{ii}}, tuple member ([i]) and carried by a dynamic value (m<[i]>, m<[m]>), " +
 			"each with exactly 4095 and 4096 entries (4096 = listValueMaxSize, the documented cap; nothing above the cap is enumerated), entry j a fixed function of j with distinct keys, through the same 3 entry points and deliveries " +
 			"(reflect-encode of a large map is compared with the documented serialization as a multiset of entries: the output must parse as a datum of the signature, re-encode to itself and equal the datum once every map is sorted by key); " +
 			"evaluations counts (datum, entry point, delivery) executions. A case class is (signature shape with struct names dropped - for the boundary family followed by #n=<entries> -, entry point, outcome); distinct_nontrivial counts the distinct classes executed"
